@@ -235,6 +235,8 @@ VERIFIED_BITSTR_FNS = {
     "new", "from", "substr", "seek", "read", "peek", "split_at", "detach", "append", "insert", "invert", "eq_with", "eq", "ne", "bits", "iter8",
     "to_bytes", "to_bytes_with_padding", "bytestr", "slice", "len", "start", "end", "is_bytestr", "is_u8_slice", "bytes_range", "bits_range",
     "from_int", "to_uint", "to_int", "from_f32", "to_f32", "from_f64", "to_f64", "clone", "default", "fmt", "next", "into_iter",
+    # BitvecBuilder: run for real (not summarised) by the C16 lexer lemmas
+    "append_bit", "finish",
     # present in the original tree, text conversions outside E1's reach (stated in DESIGN.md) - not new code
     "from_hex_str", "to_hex_string", "from_bin_str",
 }
@@ -251,7 +253,8 @@ def bitlevel_scan(L):
     bad = {}
     n = 0
     for name, f in ex.funcs.items():
-        if not name.startswith("bitstr_ext::") or name.startswith(("const ", "promoted")) or "tests::" in name:
+        # every function outside bitstr.rs's own impl blocks (module-level functions are printed without their module)
+        if name.startswith(("bitstr::", "const ", "promoted")) or "tests::" in name or "verif_hooks" in name:
             continue
         n += 1
         for b in f.blocks.values():
@@ -268,12 +271,12 @@ def bitlevel_scan(L):
             "expect": [("no_panic",), ("last_result_in", ["ok"]), ("stacks_equal", [0, 1]), ("cells_are", [("bitstr", "|B5 68 3xxx|")])]}
     if bad:
         for fn_, callers in sorted(bad.items()):
-            ob = Obligation(L.cur, "bitstr_ext.rs builds / parses bit-strings only through the bit-level functions decided by E1 (unverified: Bitstr::%s, called from %s)" % (fn_, sorted(callers)),
+            ob = Obligation(L.cur, "bit-strings are built / parsed only through the bit-level functions decided by E1 (unverified: Bitstr::%s, called from %s)" % (fn_, sorted(callers)),
                             "violated", model={}, detail="MIR scan")
             ob.scenario = scen
             L.obligations.append(ob)
     else:
-        L.obligations.append(Obligation(L.cur, "MIR scan: every bitstr.rs function called from bitstr_ext.rs (%d functions scanned) is in the E1-decided set" % n, "holds"))
+        L.obligations.append(Obligation(L.cur, "MIR scan: every Bitstr / BitvecBuilder function called from outside bitstr.rs (%d functions scanned) is in the E1-decided set" % n, "holds"))
 
 
 def run_c07(L, tier, only=None):
